@@ -283,7 +283,11 @@ class PatternRewriter(Builder, PatternRewriterListener):
         if isinstance(val, BlockArgument):
             if (op := val.block.parent_op()) is not None:
                 self.handle_operation_modification(op)
-        return Rewriter.replace_value_with_new_type(val, new_type)
+        modified_ops = [use.operation for use in val.uses]
+        new_value = Rewriter.replace_value_with_new_type(val, new_type)
+        for modified_op in modified_ops:
+            self.handle_operation_modification(modified_op)
+        return new_value
 
     def insert_block_argument(
         self, block: Block, index: int, arg_type: Attribute
